@@ -32,6 +32,10 @@ def data_variants():
         out.append(('regex-%s-incl' % pat.decode(), None, DR(pat, incl=True)))
         out.append(('regex-%s' % pat.decode(), None, DR(pat, incl=False)))
         out.append(('regex-%s-noconsume' % pat.decode(), None, DR(pat, incl=False, consume=False)))
+    # expressions compiled WITH flags (ignore case, dot matches newline, multiline anchors)
+    for pat, fl in ((b'x', 'I'), (b'xY', 'I'), (b'X.', 'S'), (b'^X', 'M'), (b'x.', 'IS')):
+        out.append(('regex-%s-flags-%s-incl' % (pat.decode(), fl), None, DR(pat, incl=True, flags=fl)))
+        out.append(('regex-%s-flags-%s' % (pat.decode(), fl), None, DR(pat, incl=False, flags=fl)))
     out.append(('regex-X+|$-incl', None, DR(b'X+|$', incl=True)))
     out.append(('eos', None, DEOS()))
     return out
